@@ -259,6 +259,9 @@ func runE3(prop, tier string, seed uint64) int {
 
 // faultProbeName maps a fault kind of the catalogue to the label RunPlan uses.
 func faultProbeName(k string) string {
+	if strings.HasPrefix(k, "sibling:") {
+		return e3.KText
+	}
 	switch k {
 	case "text-file", "bak-file":
 		return e3.KText
